@@ -131,7 +131,7 @@ func main() {
 			f, _ := os.Create(*cpuprof)
 			pprof.StartCPUProfile(f)
 		}
-		res := explore(ld, spec, *tier, seedFromEnv(), *workers, *logSMT)
+		res := explore(ld, spec, *tier, seedFromEnv(), *workers, *logSMT, nil)
 		if *cpuprof != "" {
 			pprof.StopCPUProfile()
 		}
